@@ -32,10 +32,19 @@ type File struct {
 	Pkg     string
 	Imports []Import
 	Type    *TypeDecl
+	Extra   []*TypeDecl // further top-level (package-private) types written after Type in the same file (Opts.TwoTypesPerFile)
 	Text    string
 	// simple type names used in this file that two or more OTHER packages of the project declare (settled, if at all,
 	// by an on-demand import): which type the tool attributes is not asserted, but it must be the same every time
 	AmbiguousNames []string
+}
+
+// Types lists every top-level type of the file in source order.
+func (f *File) Types() []*TypeDecl {
+	if f.Type == nil {
+		return nil
+	}
+	return append([]*TypeDecl{f.Type}, f.Extra...)
 }
 
 type Annotation struct {
@@ -107,12 +116,12 @@ type Method struct {
 	Body        []*Stmt
 	Throws      string
 	// filled by renderer
-	DeclLine    int // line the declaration starts on (first modifier/annotation)
-	NameLine    int
-	NameCol     int
-	NameByteOff int
-	CloseLine   int // line of the closing brace (or of ';')
-	Sites       []*Site
+	DeclLine       int // line the declaration starts on (first modifier/annotation)
+	NameLine       int
+	NameCol        int
+	NameByteOff    int
+	CloseLine      int // line of the closing brace (or of ';')
+	Sites          []*Site
 	SameLineAsPrev bool // rendered on the same line as the previous member
 }
 
@@ -155,17 +164,17 @@ func (t *TypeDecl) Fields() []*Field {
 type Stmt struct {
 	Kind string // local | assign | expr | if | for | foreach | while | switch | try | return | comment
 	// local: Type Var [= Init]; (Final, extra declarators in Extra)
-	Type  string
-	Var   string
-	Final bool
-	Extra []Declarator
-	E     *Expr   // init / value / condition / switch selector / iterable
-	Then  []*Stmt // if-then, loop body, try block
-	Else  []*Stmt // else, finally
-	Cases [][]*Stmt
-	Catch []*Stmt // catch block
+	Type                string
+	Var                 string
+	Final               bool
+	Extra               []Declarator
+	E                   *Expr   // init / value / condition / switch selector / iterable
+	Then                []*Stmt // if-then, loop body, try block
+	Else                []*Stmt // else, finally
+	Cases               [][]*Stmt
+	Catch               []*Stmt // catch block
 	CatchType, CatchVar string
-	Text  string // comment text
+	Text                string // comment text
 }
 
 type Declarator struct {
@@ -174,15 +183,16 @@ type Declarator struct {
 }
 
 type Expr struct {
-	Kind string // call | new | lit | var | bin | lambda | field | paren | cast
-	Site *Site  // call/new
-	Recv *Expr  // call: receiver expression (nil for implicit)
-	RecvText string // for this./static receivers: literal text before the dot
-	Args []*Expr
-	Text string // lit / var text, operator for bin
-	L, R *Expr
-	LambdaParam string
+	Kind            string // call | new | lit | var | bin | lambda | field | paren | cast
+	Site            *Site  // call/new
+	Recv            *Expr  // call: receiver expression (nil for implicit)
+	RecvText        string // for this./static receivers: literal text before the dot
+	Args            []*Expr
+	Text            string // lit / var text, operator for bin
+	L, R            *Expr
+	LambdaParam     string
 	LambdaParamType string // "" = untyped lambda parameter; otherwise written "(Type name) ->"
-	LambdaBody  *Expr
-	LambdaBlock []*Stmt
+	LambdaBody      *Expr
+	LambdaBlock     []*Stmt
+	AnonBody        string // new: text of an anonymous class body written after the arguments (its methods make no calls)
 }
